@@ -32,7 +32,7 @@ Definition wrap32 (v : Z) : Z :=
 
 Definition sentinel : Z := 2125258413.   (* 0x7eaddead *)
 
-Inductive cres := COk (v : Z) | CDivZero | CStuck.
+Inductive cres := COk (v : Z) | CDivZero | CShift | CStuck.   (* CShift: shift count outside 0..31 *)
 
 Definition b2z (b : bool) : Z := if b then 1 else 0.
 
@@ -45,8 +45,8 @@ Definition apply_bin (o : bop) (l r : Z) : cres :=
   | OAnd => COk (Z.land l r)
   | OOr => COk (Z.lor l r)
   | OXor => COk (Z.lxor l r)
-  | OShr => COk (Z.shiftr l (r mod 32))           (* release build: shift amount masked *)
-  | OShl => COk (wrap32 (Z.shiftl l (r mod 32)))
+  | OShr => if (r <? 0) || (32 <=? r) then CShift else COk (Z.shiftr l r)
+  | OShl => if (r <? 0) || (32 <=? r) then CShift else COk (wrap32 (Z.shiftl l r))
   | OLAnd => COk (b2z (negb (l =? 0) && negb (r =? 0)))
   | OLOr => COk (b2z (negb (l =? 0) || negb (r =? 0)))
   | OGt => COk (b2z (r <? l))
